@@ -58,6 +58,14 @@ theorem genMetaOne_ok {a b : Int} (cfg : Cfg) (enc : String → String) (now : I
         ⟨c2, c5, c6, c3, c4⟩
       split <;> exact res
 
+theorem genServerName_ok {a b : Int} (cfg : Cfg) (enc : String → String) (now : Int) (emit : Bool)
+    (acc : Target × List Event) (hi : TInvD a b acc.1) (hn : acc.1.name ≠ "") :
+    MetaStep a b acc.1 (genServerName cfg enc now emit acc).1 := by
+  unfold genServerName
+  split
+  · exact genMetaOne_ok cfg enc now emit acc _ _ _ hi hn
+  · exact MetaStep.refl hi
+
 theorem foldl_metaStep {a b : Int} {α : Type} (f : Target × List Event → α → Target × List Event)
     (hf : ∀ acc x, TInvD a b acc.1 → acc.1.name ≠ "" → MetaStep a b acc.1 (f acc x).1) :
     ∀ (l : List α) (acc : Target × List Event), TInvD a b acc.1 → acc.1.name ≠ "" →
@@ -96,7 +104,9 @@ theorem generateMetaUpdates_ok {a b : Int} (cfg : Cfg) (enc : String → String)
     (by intro acc x hi hn; split
         · exact genMetaOne_ok cfg enc now emit acc x _ _ hi hn
         · exact MetaStep.refl hi) strNames _ s2.inv (by rw [s2.name, s1.name]; exact hn)
-  exact (s1.trans s2).trans s3
+  have s4 := genServerName_ok (a := a) (b := b) cfg enc now emit _ s3.inv
+    (by rw [s3.name, s2.name, s1.name]; exact hn)
+  exact ((s1.trans s2).trans s3).trans s4
 
 theorem updateMeta_ok {a b : Int} (cfg : Cfg) (enc : String → String) (now : Int) (emit : Bool)
     (t : Target) (hi : TInvD a b t) (hn : t.name ≠ "") :
@@ -322,7 +332,8 @@ theorem metaNoti_target (enc : String → String) (t name : String) (v : Scalar)
 theorem SInv.empty (cfg : Cfg) : SInv { cfg := cfg } := by
   intro name t h; simp [State.get] at h
 
-theorem fresh_target_inv (name : String) : TInv ({ name := name } : Target) :=
+theorem fresh_target_inv (name : String) (sn : Option String := none) :
+    TInv ({ name := name, serverName := sn } : Target) :=
   ⟨by simp [UniqueKeys], by simp, by simp, by simp [nm], by simp⟩
 
 /-- a valid API call: targets are registered under non-empty names -/
